@@ -93,8 +93,17 @@ func Gen(rt *rapid.T, maxRounds int, withPrune bool) *Script {
 			s.MergedAndDiscarded = true
 		}
 		if withPrune && gen.Chance(rt, 45, "prune") {
-			// any version from 1 to one past the newest
-			rd.PruneBelow = int64(gen.Uniform(rt, 1, int(version)+1, "pv"))
+			// any version from 1 to one past the newest; two thirds of the prunes aim at the version of a round saved so
+			// far other than the oldest (a uniform draw mostly lands at or below the oldest round and removes nothing)
+			if len(s.Rounds) > 0 && gen.Chance(rt, 66, "pvround") {
+				vs := []int64{version}
+				for _, prev := range s.Rounds[1:] {
+					vs = append(vs, prev.Version)
+				}
+				rd.PruneBelow = gen.Pick(rt, vs, "pvr")
+			} else {
+				rd.PruneBelow = int64(gen.Uniform(rt, 1, int(version)+1, "pv"))
+			}
 		}
 		s.Rounds = append(s.Rounds, rd)
 		s.Models = append(s.Models, mptkit.CopyContent(model))
